@@ -155,6 +155,11 @@ func corruptFasta(r *RNG, txt, kind, where string) string {
 	case "bad-symbol":
 		p := r.Intn(len(lines[at]))
 		lines[at] = lines[at][:p] + string(r.Pick("XJZ*1")) + lines[at][p+1:]
+	case "header-without-id":
+		// the header line of that record carries no ID: a bare '>' or '>' followed by white space only
+		if at > 0 && strings.HasPrefix(lines[at-1], ">") {
+			lines[at-1] = r.PickStr([]string{">", "> ", ">\t", ">  "})
+		}
 	}
 	return strings.Join(lines, "\n") + "\n"
 }
@@ -165,7 +170,7 @@ func c18Gen(r *RNG, id string) *Case {
 	cmd := r.PickStr(cmds)
 	c.Set("cmd", cmd).Set("expect", "refuse")
 	c.SetInt("setupseed", r.Intn(1<<30))
-	kinds := []string{"short-row", "long-row", "bad-symbol", "missing-file", "empty-file", "width-mismatch", "two-record-reference", "late-short-row", "late-bad-symbol"}
+	kinds := []string{"short-row", "long-row", "bad-symbol", "header-without-id", "missing-file", "empty-file", "width-mismatch", "two-record-reference", "late-short-row", "late-bad-symbol"}
 	switch cmd {
 	case "toma", "topa", "samvariants":
 		kinds = []string{"empty-sam", "missing-file", "empty-file"}
@@ -173,17 +178,17 @@ func c18Gen(r *RNG, id string) *Case {
 			kinds = append(kinds, "headerless-sam", "window")
 		}
 		if cmd == "topa" {
-			kinds = append(kinds, "window", "two-record-reference", "bad-symbol")
+			kinds = append(kinds, "window", "two-record-reference", "bad-symbol", "header-without-id")
 		}
 		if cmd == "samvariants" {
-			kinds = append(kinds, "bad-suffix", "two-record-reference", "bad-symbol")
+			kinds = append(kinds, "bad-suffix", "two-record-reference", "bad-symbol", "header-without-id")
 		}
 	case "topranking":
 		kinds = append(kinds, "empty-csv", "bad-csv-header", "no-option", "csv-bad-amb", "csv-bad-snp", "csv-bad-count", "csv-short-row")
 	case "variants":
-		kinds = []string{"short-row", "long-row", "bad-symbol", "missing-file", "empty-file", "bad-suffix", "width-mismatch"}
+		kinds = []string{"short-row", "long-row", "bad-symbol", "header-without-id", "missing-file", "empty-file", "bad-suffix", "width-mismatch"}
 	case "closest", "closest-n":
-		kinds = []string{"short-row", "long-row", "bad-symbol", "missing-file", "empty-file", "width-mismatch", "late-short-row", "late-bad-symbol", "late-short-row", "late-bad-symbol"}
+		kinds = []string{"short-row", "long-row", "bad-symbol", "header-without-id", "missing-file", "empty-file", "width-mismatch", "late-short-row", "late-bad-symbol", "late-short-row", "late-bad-symbol"}
 	}
 	c.Set("kind", r.PickStr(kinds))
 	c.Set("where", r.PickStr([]string{"first", "middle", "last"}))
@@ -233,7 +238,7 @@ func execExitC18(c *Case, dir string) {
 	}
 	switch kind {
 	case "none":
-	case "short-row", "long-row", "bad-symbol":
+	case "short-row", "long-row", "bad-symbol", "header-without-id":
 		s.files[target] = corruptFasta(r, s.files[target], kind, c.Get("where"))
 		c.Set("text", s.files[target]).Set("file", target)
 	case "late-short-row", "late-bad-symbol":
